@@ -538,8 +538,16 @@ impl<'a> Ctx<'a> {
 	/// `self.built` is the irregular input x; `canon` is the concretisation of the model's emission.
 	pub fn c17(&self, canon: &Built, out: &mut Vec<Viol>) {
 		let cls = format!("{},junk={}", shape_class(self.beh), self.beh.junk);
+		// C17 speaks of the games the reader ACCEPTS.  Acceptance itself is demanded elsewhere only for unknown
+		// events (C08) and for an absent Game End / metadata (C01); a reader that refuses junk after Game End or a
+		// non-canonical event order does not break C17.
+		let known: Vec<usize> = self.beh.hist.iter().filter(|e| e.k != "unk").map(|e| e.tok).collect();
+		let mut emitted: Vec<usize> = self.beh.emit.iter().map(|e| e.tok).collect();
+		emitted.dedup();
+		let acceptance_demanded = self.beh.junk == 0 && known == emitted;
 		let g = match real::read_slp_noopts(&self.built.bytes) {
 			Outcome::Ok(g) => g,
+			Outcome::Err(_) if !acceptance_demanded => return,
 			o => {
 				out.push(outcome_viol("tolerated_read", &cls, &o));
 				return;
